@@ -98,7 +98,22 @@ class ASTPrinter:
         return "$%s" % node.name.value
 
     def print_document(self, node: _ast.Document) -> str:
-        return _join(map(self, node.definitions), "\n\n") + "\n"
+        printed = []
+        previous = None
+        for definition in node.definitions:
+            text = self(definition)
+            # Right after a type system definition the short form of a query
+            # would be read as the body of that definition.
+            if (
+                isinstance(definition, _ast.OperationDefinition)
+                and text.startswith("{")
+                and previous is not None
+                and not isinstance(previous, _ast.ExecutableDefinition)
+            ):
+                text = "query " + text
+            printed.append(text)
+            previous = definition
+        return _join(printed, "\n\n") + "\n"
 
     def print_operation_definition(self, node: _ast.OperationDefinition) -> str:
         op = node.operation
